@@ -93,18 +93,19 @@ Section Proto.
 Variable ip6 : str -> option str.
 Variable handler : str -> hres.
 Variable has_mw has_upload : bool.
+Variable up_call_fails : option str.
 Variable peer_ip : str.
 Variable peer_fp : option str.
 
 Notation route := (route handler).
 Notation handle_gemini := (handle_gemini ip6 handler has_mw peer_ip peer_fp).
-Notation start_upload := (start_upload has_upload).
-Notation process_titan_upload := (process_titan_upload has_mw has_upload peer_ip peer_fp).
-Notation handle_titan_url := (handle_titan_url ip6 has_mw has_upload peer_ip peer_fp).
-Notation data_received := (data_received ip6 handler has_mw has_upload peer_ip peer_fp).
-Notation feed := (feed ip6 handler has_mw has_upload peer_ip peer_fp).
-Notation step := (step ip6 handler has_mw has_upload peer_ip peer_fp).
-Notation run := (run ip6 handler has_mw has_upload peer_ip peer_fp).
+Notation start_upload := (start_upload has_upload up_call_fails).
+Notation process_titan_upload := (process_titan_upload has_mw has_upload up_call_fails peer_ip peer_fp).
+Notation handle_titan_url := (handle_titan_url ip6 has_mw has_upload up_call_fails peer_ip peer_fp).
+Notation data_received := (data_received ip6 handler has_mw has_upload up_call_fails peer_ip peer_fp).
+Notation feed := (feed ip6 handler has_mw has_upload up_call_fails peer_ip peer_fp).
+Notation step := (step ip6 handler has_mw has_upload up_call_fails peer_ip peer_fp).
+Notation run := (run ip6 handler has_mw has_upload up_call_fails peer_ip peer_fp).
 Notation Inv := (Inv has_upload).
 
 (* ---------- the dispatch helpers commute with set_buf and keep buf / line_rcvd / await ---------- *)
@@ -142,12 +143,16 @@ Qed.
 Lemma su_buf s b l : start_upload (set_buf s b l) = lift b l (start_upload s).
 Proof.
   unfold ServerProto.start_upload. cbn [titan content set_buf].
-  destruct (titan s); [|reflexivity]. destruct has_upload; reflexivity.
+  destruct (titan s); [|reflexivity]. destruct has_upload; [|reflexivity].
+  destruct up_call_fails as [msg|]; [|reflexivity].
+  rewrite !upload_failed_eq, send_buf. destruct (send_response s _); reflexivity.
 Qed.
 Lemma Same_su s : Same s (fst (start_upload s)).
 Proof.
   unfold ServerProto.start_upload. destruct (titan s); [|apply Same_refl].
-  destruct has_upload; repeat split.
+  destruct has_upload; [|repeat split]. destruct up_call_fails as [msg|]; [|repeat split].
+  rewrite upload_failed_eq. generalize (Same_send s (err_resp 40 (lit "Upload error: " ++ msg))).
+  destruct (send_response s _); auto.
 Qed.
 
 Lemma ptu_buf s b l : process_titan_upload (set_buf s b l) = lift b l (process_titan_upload s).
@@ -390,7 +395,7 @@ Lemma run_reads reads : forall s, tr s = true ->
 Proof.
   induction reads as [|sl reads IH]; intros s T; [reflexivity|].
   cbn [map concat]. rewrite run_cons, flat_cons. cbn [ServerProto.step]. rewrite T.
-  rewrite IH by (rewrite (e_tr _ _ _ (Eff_feed ip6 handler has_mw has_upload peer_ip peer_fp sl s)); exact T).
+  rewrite IH by (rewrite (e_tr _ _ _ (Eff_feed ip6 handler has_mw has_upload up_call_fails peer_ip peer_fp sl s)); exact T).
   rewrite feed_app. reflexivity.
 Qed.
 
@@ -406,7 +411,7 @@ Qed.
 
 End Proto.
 
-Lemma refines : forall ip6 handler mw up ip fp (reads : list (list str)),
-  flat (run ip6 handler mw up ip fp init (map ERead reads)) =
-  flat (run ip6 handler mw up ip fp init [ERead [concat (concat reads)]]).
+Lemma refines : forall ip6 handler mw up ucf ip fp (reads : list (list str)),
+  flat (run ip6 handler mw up ucf ip fp init (map ERead reads)) =
+  flat (run ip6 handler mw up ucf ip fp init [ERead [concat (concat reads)]]).
 Proof. exact refines_sec. Qed.
